@@ -6,7 +6,12 @@
 //!   enum <seg,seg,..> <maxseg> <shard> <n>   all patterns x all queries built from <= maxseg segments; prints the
 //!                                            matching pairs of the patterns with index % n == shard, then totals
 //!   run <routes> <msgs>                      DispatchConn::run over a scripted connection (see checks/c19.py);
-//!        msg = serial;kind;object;sender;result;reply body;new routes;flags;destination;body string;byte order l|B
+//!        msg = serial;kind;object;sender;result;reply body;new routes;flags;destination;body string;byte order l|B;emit
+//!        emit = e<k> / p<k>: the handler sends k signals (interface verif.Emit, body "<serial>.<j>") through
+//!        env.conn before it returns (e: one lock for all of them, p: lock and unlock around each one).
+//!        Output: log=.. replies=.. emits=<body-hex>@<number of other messages written before it>|.. end=..
+//!        A run that has not finished RUN_DEADLINE after it started ends as `hang` (what was logged and written
+//!        until then is printed); the run lines after a hang in the same process are answered `end=skipped`.
 use rbverif::{hex, unhex};
 use rustbus::connection::dispatch_conn::{
     DispatchConn, HandleEnvironment, HandleError, HandleFn, HandleResult, Matches, PathMatcher,
@@ -120,6 +125,7 @@ fn encode(m: &Incoming) -> Vec<u8> {
 
 struct Seen {
     typ: u8,
+    interface: Option<Vec<u8>>,
     reply_serial: Option<u32>,
     destination: Option<Vec<u8>>,
     codes: Vec<u8>,
@@ -149,6 +155,7 @@ fn decode_all(bytes: &[u8]) -> Option<Vec<Seen>> {
         }
         let mut seen = Seen {
             typ: b[1],
+            interface: None,
             reply_serial: None,
             destination: None,
             codes: Vec::new(),
@@ -174,6 +181,8 @@ fn decode_all(bytes: &[u8]) -> Option<Vec<Seen>> {
                     p += 4 + l + 1;
                     if code == 6 {
                         seen.destination = Some(s);
+                    } else if code == 2 {
+                        seen.interface = Some(s);
                     }
                 }
                 b"u" => {
@@ -321,6 +330,34 @@ struct Behaviour {
     res: char,
     body: String,
     newroutes: Vec<(String, u32)>,
+    emit: u32,          // signals sent through env.conn before returning
+    emit_relock: bool,  // lock/unlock around each one instead of once around all
+}
+
+const EMIT_INTERFACE: &str = "verif.Emit";
+const RUN_DEADLINE: std::time::Duration = std::time::Duration::from_secs(20);
+
+/// what the dispatch documentation describes for handlers that want to send something themselves:
+/// lock env.conn, send_message(..)?.write_all(), unlock
+fn emit_signals(env: &mut HandleEnvironment<Ctx, ()>, serial: u32, b: &Behaviour) -> Result<(), HandleError<()>> {
+    let one = |conn: &mut SendConn, j: u32| -> Result<(), HandleError<()>> {
+        let mut sig = MessageBuilder::new().signal(EMIT_INTERFACE, "E", "/verif/emit").build();
+        sig.body.push_param(format!("{}.{}", serial, j).as_str())?;
+        conn.send_message(&sig)?.write_all().map_err(|(_, e)| HandleError::Connection(e))?;
+        Ok(())
+    };
+    if b.emit_relock {
+        for j in 0..b.emit {
+            let mut conn = env.conn.lock().unwrap();
+            one(&mut conn, j)?;
+        }
+    } else if b.emit > 0 {
+        let mut conn = env.conn.lock().unwrap();
+        for j in 0..b.emit {
+            one(&mut conn, j)?;
+        }
+    }
+    Ok(())
 }
 
 struct Ctx {
@@ -345,6 +382,7 @@ fn scripted(id: Option<u32>) -> Box<HandleFn<Ctx, ()>> {
             for (pat, hid) in &b.newroutes {
                 env.new_dispatches.insert(pat, scripted(Some(*hid)));
             }
+            emit_signals(env, serial, &b)?;
             match b.res {
                 'S' => {
                     let mut r = msg.dynheader.make_response();
@@ -378,7 +416,7 @@ fn opt_bytes(s: &str) -> Option<Vec<u8>> {
     }
 }
 
-fn do_run(routes: &str, msgs: &str) -> String {
+fn do_run(routes: &str, msgs: &str, hung: &mut bool) -> String {
     let routes = parse_routes(routes);
     let mut incoming = Vec::new();
     let mut script = HashMap::new();
@@ -402,6 +440,8 @@ fn do_run(routes: &str, msgs: &str) -> String {
                     res: f[4].chars().next().unwrap(),
                     body: if f[5] == "-" { String::new() } else { utf8(f[5]) },
                     newroutes: parse_routes(f[6]),
+                    emit: f.get(11).map(|e| e[1..].parse().unwrap()).unwrap_or(0),
+                    emit_relock: f.get(11).map(|e| e.starts_with('p')).unwrap_or(false),
                 },
             );
         }
@@ -415,7 +455,8 @@ fn do_run(routes: &str, msgs: &str) -> String {
     peer.shutdown(std::net::Shutdown::Write).unwrap();
     let log = Arc::new(Mutex::new(Vec::new()));
     let log2 = log.clone();
-    let t = std::thread::spawn(move || {
+    let (done_tx, done_rx) = std::sync::mpsc::channel::<String>();
+    std::thread::spawn(move || {
         let ctx = Ctx { script, log: log2 };
         let mut dc = DispatchConn::new(conn, ctx, scripted(None));
         for (p, id) in &routes {
@@ -437,9 +478,20 @@ fn do_run(routes: &str, msgs: &str) -> String {
                 break;
             }
         }
-        ends.join(",")
+        let _ = done_tx.send(ends.join(","));
     });
-    let end = t.join().unwrap_or_else(|_| "panic".to_string());
+    // hang detector only: a run takes milliseconds. A thread that panicked drops its sender.
+    let end = match done_rx.recv_timeout(RUN_DEADLINE) {
+        Ok(e) => e,
+        Err(std::sync::mpsc::RecvTimeoutError::Disconnected) => "panic".to_string(),
+        Err(std::sync::mpsc::RecvTimeoutError::Timeout) => {
+            // the dispatcher is stuck (its thread is abandoned) and still holds the connection: there will
+            // be no end of stream, so take what has been written so far
+            *hung = true;
+            peer.set_read_timeout(Some(std::time::Duration::from_millis(500))).unwrap();
+            "hang".to_string()
+        }
+    };
     // the connection is closed now: read what was written until end of stream
     let mut bytes = Vec::new();
     let mut chunk = [0u8; 4096];
@@ -451,21 +503,35 @@ fn do_run(routes: &str, msgs: &str) -> String {
             Err(_) => break, // ECONNRESET after the queued data: unread input at close
         }
     }
+    // what the handlers sent themselves (marker interface) is listed apart, each with its position among
+    // the messages run() wrote
+    let mut emits = Vec::new();
     let replies = match decode_all(&bytes) {
         Some(v) => {
-            if v.is_empty() {
+            let mut own = Vec::new();
+            for s in &v {
+                if s.interface.as_deref() == Some(EMIT_INTERFACE.as_bytes()) {
+                    let l = get_u32(&s.body, 0).unwrap_or(0) as usize;
+                    let txt = s.body.get(4..4 + l).map(hex).unwrap_or_else(|| "?".into());
+                    emits.push(format!("{}@{}", txt, own.len()));
+                } else {
+                    own.push(show_seen(s));
+                }
+            }
+            if own.is_empty() {
                 "-".to_string()
             } else {
-                v.iter().map(show_seen).collect::<Vec<_>>().join("|")
+                own.join("|")
             }
         }
         None => format!("undecodable:{}", hex(&bytes)),
     };
     let log = log.lock().unwrap();
     format!(
-        "log={} replies={} end={}",
+        "log={} replies={} emits={} end={}",
         if log.is_empty() { "-".to_string() } else { log.join("|") },
         replies,
+        if emits.is_empty() { "-".to_string() } else { emits.join("|") },
         end
     )
 }
@@ -476,6 +542,7 @@ fn main() {
     let stdout = std::io::stdout();
     let mut out = std::io::BufWriter::new(stdout.lock());
     let mut probe: Option<Probe> = None;
+    let mut hung = false;
     for line in stdin.lock().lines() {
         let line = line.unwrap();
         let parts: Vec<&str> = line.split(' ').collect();
@@ -530,7 +597,12 @@ fn main() {
                 writeln!(out, "total {} matched {} nontrivial {}", total, matched, nt).unwrap();
             }
             ["run", routes, msgs] => {
-                let r = do_run(routes, msgs);
+                // one stuck dispatcher is a verdict; do not spend the deadline on every following line
+                let r = if hung {
+                    "log=- replies=- emits=- end=skipped".to_string()
+                } else {
+                    do_run(routes, msgs, &mut hung)
+                };
                 writeln!(out, "{}", r).unwrap();
             }
             _ => writeln!(out, "?").unwrap(),
